@@ -917,6 +917,13 @@ class Gen:
         if inst:
             b.append(['instrument', ['cyc', inst]])
         r.shuffle(b)
+        if r.random() < 0.25:
+            # two adjacent keys given as one tuple key with two-item value lists
+            ok = [i for i in range(len(b) - 1)
+                  if b[i][1][0] == b[i + 1][1][0] and b[i][1][0] in ('fin', 'cyc')
+                  and len(b[i][1]) > 1 and len(b[i + 1][1]) > 1]
+            if ok:
+                return ['bind', b, {'tuple': r.choice(ok)}]
         return ['bind', b]
 
     def mono(self, defs):
@@ -966,6 +973,14 @@ class Gen:
         # Pbind(pitch/amp keys) <> p : no timing keys, as long as the source
         inner = self.pat(defs, d - 1, False)
         b = [[k, ['cyc', self.key_val(k)]] for k in self.r.sample(['amp', 'pan', 'foo', 'detune', 'ctranspose'], 2)]
+        if r.random() < 0.5:
+            # Pchain(a).chain(b); the left side repeats value keys of the right side (the left one wins)
+            if inner[0] == 'bind':
+                both = [kv[0] for kv in inner[1] if kv[0] in ('amp', 'pan', 'foo', 'detune', 'ctranspose', 'legato', 'db', 'octave', 'mtranspose')]
+                for k in both[:2]:
+                    if k not in [x[0] for x in b]:
+                        b.append([k, ['cyc', self.key_val(k)]])
+            return ['chain', b, inner, 'method']
         return ['chain', b, inner]
 
 
@@ -1023,6 +1038,10 @@ class Check(common.Check):
         x = rng.random()
         if x < 0.4:
             prog = ['event', t0, g.event(defs)]
+            if rng.random() < 0.3:
+                # play(dict, **kw): some keys are given both in the dict (a decoy value) and as keywords
+                ks = [kv[0] for kv in prog[2]]
+                prog.append(rng.sample(ks, min(len(ks), rng.randint(1, 3))))
         elif x < 0.55:
             # one event object played 2-4 times (itself / a copy of the played object); without
             # harmonic / detune, which play() folds into the stored freq
@@ -1268,7 +1287,8 @@ class Check(common.Check):
         def cands(prog):
             if prog[0] == 'event':
                 for i in range(len(prog[2])):
-                    yield ['event', prog[1], prog[2][:i] + prog[2][i + 1:]]
+                    ev = prog[2][:i] + prog[2][i + 1:]
+                    yield ['event', prog[1], ev] + ([[k for k in prog[3] if k != prog[2][i][0]]] if len(prog) > 3 else [])
                 return
             if prog[0] == 'redef':
                 for i in range(len(prog[2])):
